@@ -13,7 +13,7 @@ ANCHORS = ["pyoma2.algorithms.fdd:FDD.run", "pyoma2.algorithms.fdd:EFDD.mpe", "p
 SS_ALGS = ["FDD", "EFDD", "FSDD", "SSIcov", "SSIcovR", "SSIdat", "pLSCF"]
 MS_ALGS = ["FDD_MS", "EFDD_MS", "SSIcov_MS", "SSIdat_MS", "pLSCF_MS"]
 TRANSF = ["gain", "gain_pow2", "perm", "mix", "time", "time_pow2"]
-REQUIRED_MONITORS = [f"{t}@{a}" for a in SS_ALGS for t in ("gain", "perm", "mix", "time")] + [f"{t}@{a}" for a in MS_ALGS for t in ("gain", "perm", "time")] + ["unit-normalisation"]
+REQUIRED_MONITORS = [f"{t}@{a}" for a in SS_ALGS for t in ("gain", "perm", "mix", "time")] + [f"{t}@{a}" for a in MS_ALGS for t in ("gain", "perm", "time")] + ["unit-normalisation", "labels@SC_apply under an exact time unit", "stable-pole labels on bit-identical tables"]
 ALL_STATES = ["method_SD=per", "method_SD=cor", "ref_ind subset", "free decay + noise", "white noise", "random response", "default hard criteria", "neutral MPC/MPD"]
 REQUIRED_STATES = ["method_SD=per", "method_SD=cor", "ref_ind subset", "free decay + noise", "white noise", "random response", "base record of integer type", "picks and band limits exactly on spectral lines (time-unit clause)", "integer-typed picks (time-unit clause)"]
 RULE = ("two (three) executions of the real algorithm through a setup on related inputs: base, transformed (gain 10^U(-6,6) or 2^k, channel permutation "
@@ -39,6 +39,8 @@ def cases(tier, seed):
             for t in ("gain", "gain_pow2", "perm", "time", "time_pow2"):
                 out.append({"cls": "multi", "alg": a, "tr": t, "k": k})
                 k += 1
+    for j in range(20 if tier == "quick" else 300):
+        out.append({"cls": "sc_time_unit", "k": 50000 + j})
     return out
 
 
@@ -188,6 +190,17 @@ def compare_tables(ctx, tag, sig, base, other, probe, fscale, T, tol, exact_nan=
             ctx.check(np.max(nrm) <= 1e-12, f"{sig}:normalisation", lambda: f"{tag}: largest-magnitude component of a mode shape differs from 1 by {np.max(nrm):.3g}")
     if npoles >= 4:
         ctx.nontrivial((tag, judged, npoles))
+    # the table of stable poles is part of the identification: where the transformed pole tables are the base tables up to an exact factor on
+    # the frequencies (power-of-two time units and gains), every relative criterion sees the same numbers and the labels are the same
+    Lb, Lo = getattr(base, "Lab", None), getattr(other, "Lab", None)
+    if Lb is not None and Lo is not None:
+        Fb, Fo = np.asarray(base.Fn_poles), np.asarray(other.Fn_poles)
+        same = (np.array_equal(Fo, Fb * fscale, equal_nan=True) or np.array_equal(Fo * fscale, Fb, equal_nan=True) or np.array_equal(Fo, Fb / fscale, equal_nan=True))
+        same = same and np.array_equal(np.asarray(base.Xi_poles), np.asarray(other.Xi_poles), equal_nan=True) and np.array_equal(np.asarray(base.Phi_poles), np.asarray(other.Phi_poles), equal_nan=True)
+        if same:
+            ctx.ev("stable-pole labels on bit-identical tables")
+            ctx.check(np.array_equal(np.asarray(Lb), np.asarray(Lo)), f"{sig}:labels_differ_on_identical_tables",
+                      lambda: f"{tag}: the pole tables are identical up to the exact factor {fscale:g} on the frequencies, yet {int((np.asarray(Lb) != np.asarray(Lo)).sum())} stable/unstable labels differ")
     return judged
 
 
@@ -430,6 +443,48 @@ def run_multi_case(ctx, case, rng):
     ctx.state("default hard criteria")
 
 
+def run_sc_time_unit(ctx, case, rng):
+    """the soft criteria are relative: expressing the frequencies of a pole table in another time unit (exact factor 2^k) leaves every label
+    as it is - also where two poles of the previous order lie close together in frequency with different damping."""
+    from pyoma2.functions import gen as G_
+
+    nr, no, nch = int(rng.integers(3, 9)), int(rng.integers(4, 12)), int(rng.integers(2, 6))
+    Fn = np.full((nr, no), np.nan)
+    Xi = np.full((nr, no), np.nan)
+    Phi = np.full((nr, no, nch), np.nan, complex)
+    f0 = np.sort(rng.uniform(0.5, 40, nr // 2 + 1))
+    P0 = rng.standard_normal((nr, nch)) + 1j * rng.standard_normal((nr, nch))
+    for o in range(no):
+        for q, f in enumerate(f0):
+            if 2 * q + 1 >= nr:
+                break
+            gap = float(rng.choice([2e-4, 5e-4, 2e-3]))
+            # a physical pole (xi ~ 1.5 %) next to a split / spurious one (xi ~ 6 %) almost at the same frequency
+            Fn[2 * q, o] = f * (1 + 1e-3 * rng.uniform(-1, 1))
+            Xi[2 * q, o] = 0.015 * (1 + 0.01 * rng.uniform(-1, 1))
+            Fn[2 * q + 1, o] = Fn[2 * q, o] * (1 + gap * rng.choice([-1, 1]))
+            Xi[2 * q + 1, o] = 0.064 * (1 + 0.01 * rng.uniform(-1, 1))
+            Phi[2 * q, o] = P0[2 * q] * (1 + 0.01 * rng.standard_normal(nch))
+            Phi[2 * q + 1, o] = P0[2 * q + 1] * (1 + 0.01 * rng.standard_normal(nch))
+            if rng.random() < 0.2:
+                Fn[2 * q + 1, o] = Xi[2 * q + 1, o] = np.nan
+                Phi[2 * q + 1, o] = np.nan
+    step = int(rng.choice([1, 2]))
+    tol = (float(rng.choice([0.002, 0.01, 0.05])), float(rng.choice([0.02, 0.05, 0.3])), float(rng.choice([0.02, 0.05])))
+    L0 = np.asarray(G_.SC_apply(Fn.copy(), Xi.copy(), Phi.copy(), 0, (no - 1) * step, step, *tol))
+    for e in (-7, -3, 4, 9):
+        Lk = np.asarray(G_.SC_apply(Fn * 2.0**e, Xi.copy(), Phi.copy(), 0, (no - 1) * step, step, *tol))
+        ctx.ev("labels@SC_apply under an exact time unit")
+        if not ctx.check(np.array_equal(L0, Lk), "sc:labels_depend_on_time_unit",
+                         lambda: f"SC_apply: {int((L0 != Lk).sum())} of {L0.size} labels change when the frequencies of the table are multiplied by 2^{e} (damping, shapes and tolerances unchanged)"):
+            break
+    if (L0 == 1).any() and (L0 == 0).any():
+        ctx.nontrivial(("sc_time_unit", nr, no, int(L0.sum())))
+    ctx.sample({"entry": "gen.SC_apply under frequency scaling", "table": [nr, no], "tolerances": list(tol), "stable": int(L0.sum())})
+
+
 def run_case(ctx, case):
     rng = gen.rng_of(case)
+    if case["cls"] == "sc_time_unit":
+        return run_sc_time_unit(ctx, case, rng)
     (run_single_case if case["cls"] == "single" else run_multi_case)(ctx, case, rng)
